@@ -45,7 +45,9 @@ def make_bodies(rng, nchunks=None, maxlen=40):
     return out
 
 
-def run_case(ctx, bodies, upper, terminate, how, pad, cuts, bufsize, readpat):
+def run_case(ctx, bodies, upper, terminate, how, pad, cuts, bufsize, readpat, timeouts=()):
+    """timeouts: indices into `cuts`; at those receive boundaries one recv() times out before the next segment
+    arrives (the caller just reads again)."""
     from pyrtcm.socketwrapper import SocketWrapper
 
     if how is not None and len(bodies) > 1 and (sum(len(b) for b in bodies) + len(cuts)) % 5 == 0:
@@ -61,12 +63,16 @@ def run_case(ctx, bodies, upper, terminate, how, pad, cuts, bufsize, readpat):
         raise RuntimeError("harness: reference chunk codec does not round-trip")
     sizes = []
     prev = 0
-    for c in cuts:
+    for j, c in enumerate(cuts):
         sizes.append(c - prev)
+        if j in timeouts:
+            sizes.append("T")
         prev = c
     sizes.append(len(encoded) - prev)
+    if any(x == "T" for x in sizes):
+        ctx.hit("runs_with_timeouts_between_segments")
     params = {"bodies": [b.hex() for b in bodies], "upper": upper, "terminate": terminate, "how": how, "pad": pad,
-              "cuts": list(cuts), "bufsize": bufsize, "readpat": readpat}
+              "cuts": list(cuts), "bufsize": bufsize, "readpat": readpat, "timeouts": list(timeouts)}
     sock = doubles.ScriptedSocket(encoded, sizes, budget=4 * len(encoded) + 4 * len(sizes) + 64)
     got = bytearray()
     try:
@@ -74,7 +80,9 @@ def run_case(ctx, bodies, upper, terminate, how, pad, cuts, bufsize, readpat):
             w = SocketWrapper(sock, encoding=ENC[how], bufsize=bufsize)
             rr = random.Random(readpat)
             idle = 0
-            while idle < 3:
+            # keep reading until the peer has sent everything AND three reads in a row delivered nothing (a read may
+            # legitimately deliver nothing while a chunk is still incomplete or a receive timed out)
+            while idle < 3 or sock._vpos < len(encoded) or sock._si < len(sock._sched):
                 k = 1 if readpat == 0 else rr.choice((1, 1, 2, 3, 7, 50))
                 r = w.read(k)
                 if not r and k > 1:
@@ -148,6 +156,8 @@ def run(ctx):
         for c in range(1, L):
             if not run_case(ctx, bodies, upper, term, how, pad, (c,), bufsize, 0):
                 return
+            if not run_case(ctx, bodies, upper, term, how, pad, (c,), bufsize, 0, timeouts=(0,)):
+                return
         pairs = list(itertools.combinations(range(1, L), 2))
         if len(pairs) > (2500 if ctx.quick else 20000):
             pairs = rng.sample(pairs, 2500 if ctx.quick else 20000)
@@ -176,10 +186,11 @@ def run(ctx):
             k = rng.randint(1, min(L - 1, 12))
             cuts = tuple(sorted(rng.sample(range(1, L), k)))
         bufsize = rng.choice((1, 2, 3, 5, 16, 64, 4096, 4096, 65536))
-        if not run_case(ctx, bodies, upper, term, how, pad, cuts, bufsize, rng.choice((0, 1, 2, 3))):
+        touts = tuple(j for j in range(len(cuts)) if rng.random() < 0.3) if rng.random() < 0.3 and len(cuts) < 40 else ()
+        if not run_case(ctx, bodies, upper, term, how, pad, cuts, bufsize, rng.choice((0, 1, 2, 3)), touts):
             return
 
 
 def replay(ctx, p):
     run_case(ctx, [bytes.fromhex(b) for b in p["bodies"]], p["upper"], p["terminate"], p["how"], p["pad"],
-             tuple(p["cuts"]), p["bufsize"], p["readpat"])
+             tuple(p["cuts"]), p["bufsize"], p["readpat"], tuple(p.get("timeouts", ())))
